@@ -27,7 +27,11 @@ LIBS = "testcel_celeritas testcel_harness testcel_core testcel_geocel celeritas 
 PRE = ("From Coq Require Import String List Bool.\n"
        "From Celer Require Import Generated.C07_cells C07.Cells.\n"
        "Import ListNotations.\nOpen Scope string_scope.\n")
-TSAN = os.path.join(vlib.VERIF, "_build", "tsan")
+_DEFAULT_BUILD = os.path.join(vlib.VERIF, "_build", "rel")
+# the TSan build follows VERIF_BUILD (isolated re-tests build their own instrumented libraries
+# from VERIF_REPO): /verif/_build/tsan for the default build, <VERIF_BUILD>_tsan otherwise
+TSAN = os.environ.get("VERIF_TSAN_BUILD") or (os.path.join(vlib.VERIF, "_build", "tsan")
+                                              if os.path.abspath(vlib.BUILD) == _DEFAULT_BUILD else vlib.BUILD.rstrip("/") + "_tsan")
 # Findings that are reproduced on the current tree, reported to the coordinator and whose repair is
 # pending (NOTES.md, F-C07-1).  While a signature is listed here it is logged as a note instead of a
 # VIOLATION; REMOVE the entry once the repair is committed so that a regression is a plain violation.
@@ -40,7 +44,7 @@ def hexd(h):
 
 
 def parse(out):
-    r = {"V": {}, "D": [], "K": {}, "X": [], "stream_of": {}}
+    r = {"V": {}, "D": [], "K": {}, "X": [], "stream_of": {}, "REG": []}
     for ln in out.splitlines():
         t = ln.split()
         if not t:
@@ -52,6 +56,8 @@ def parse(out):
             r["D"].append(ln)
         elif t[0] == "K":
             r["K"][int(t[1])] = t[2]
+        elif t[0] in ("MR", "ME", "KR"):     # EN (environment keys) is informative only: it depends on what was logged
+            r["REG"].append(ln)
         elif t[0] == "X":
             r["X"].append(ln)
     r["D"].sort()
@@ -82,27 +88,31 @@ def run(ctx):
 
     # ---- 1. translator -----------------------------------------------------
     cells = shared_mutable.generate(vlib.REPO)
-    txt = shared_mutable.emit(cells, vlib.REPO)
+    uses = shared_mutable.generate_uses(vlib.REPO)
+    txt = shared_mutable.emit(cells, vlib.REPO, uses)
     os.makedirs(os.path.dirname(shared_mutable.OUT), exist_ok=True)
     old = open(shared_mutable.OUT).read() if os.path.exists(shared_mutable.OUT) else None
     if old != txt:
         with open(shared_mutable.OUT, "w") as f:
             f.write(txt)
-    ctx.log("translator: %d potentially shared mutable cells" % len(cells))
+    ctx.log("translator: %d potentially shared mutable cells, %d use sites of unsynchronised-cell writers (%d flagged per-stream)" % (
+        len(cells), len(uses), sum(1 for u in uses if u[3])))
+    ctx.coverage["unsync_use_sites"] = len(uses)
     ctx.coverage["cells"] = len(cells)
     for k in sorted({c[2] for c in cells}):
         ctx.count("cell-kind:" + k, sum(1 for c in cells if c[2] == k))
 
     # ---- 2. proofs -----------------------------------------------------------
     proofs_ok = ctx.coq_prove("Properties_C07.v")
-    unguarded = stale = None
+    unguarded = stale = offending = None
     if not proofs_ok:
         ok, _ = ctx.coq_build(["C07/Cells.vo"])
         if ok:
             try:
-                unguarded, stale = ctx.coq_eval("oblig", PRE, ["unguarded_cells", "stale_rows"])
+                unguarded, stale, offending = ctx.coq_eval("oblig", PRE, ["unguarded_cells", "stale_rows", "unsync_uses_offending"])
                 ctx.broken_proof["unguarded_cells"] = unguarded
                 ctx.broken_proof["stale_rows"] = stale
+                ctx.broken_proof["unsync_uses_offending"] = offending
             except Exception as ex:
                 ctx.notes.append("could not evaluate obligations: %s" % ex)
 
@@ -187,6 +197,10 @@ def run(ctx):
             if c["D"] != s["D"] or c["K"] != s["K"]:
                 report("interference", "diagnostic / calorimeter tallies differ between concurrent and serial execution",
                        dict(label, concurrent={"D": c["D"], "K": c["K"]}, serial={"D": s["D"], "K": s["K"]}))
+            if c["REG"] != s["REG"]:
+                d_ = [(a, b) for a, b in zip(c["REG"] + [None] * len(s["REG"]), s["REG"] + [None] * len(c["REG"])) if a != b][:6]
+                report("interference", "process-wide registries (MemRegistry / KernelRegistry) differ between concurrent and serial execution",
+                       dict(label, first_differences=d_, concurrent_entries=len(c["REG"]), serial_entries=len(s["REG"])))
             if s["D"] != ref["D"]:
                 report("assignment-dependence", "integer diagnostics (action / step counts) depend on the event-to-stream assignment",
                        dict(label, this=s["D"], reference=ref["D"]))
@@ -216,6 +230,9 @@ def run(ctx):
         if unguarded:
             what = "new potentially shared mutable cell(s) without a reviewed guard: %s" % (
                 ", ".join("%s:%s (%s)" % tuple(u) for u in unguarded[:6]))
+        elif offending:
+            what = "unsynchronised global cell written from an unreviewed or per-stream use site: %s" % (
+                "; ".join("%s in %s (%s)%s" % (u[2], u[1], u[0], " [PER-STREAM PATH]" if u[3] else "") for u in offending[:6]))
         elif stale:
             what = "guard table rows no longer match any cell: %r" % (stale[:6],)
         ctx.violation("proof-broken", what, ctx.broken_proof, no_input=True)
